@@ -372,7 +372,10 @@ def do_vol_pack(f, text):
         if radii_ok and want_pf is not None:
             fail("C12:volume-raises", "%s raises %s: %s" % (text2, type(v).__name__, v), text2)
         return op, "(RErr %s)" % err_kind(v), text2
-    if want_pf is not None:
+    if want_pf is not None and any(a.covalent_radius is None for a in f.atoms):
+        fail("C12:volume-packing", "%s = %r although the covalent radius of %s is unknown (the sphere volume cannot be summed)"
+             % (text2, v, next(a for a in f.atoms if a.covalent_radius is None)), text2)
+    elif want_pf is not None:
         want = 4 * math.pi / 3 * sum(a.covalent_radius ** 3 * c for a, c in f.atoms.items()) / want_pf * 1e-24
         if not rel(v, want, 1e-12):
             fail("C12:volume-packing", "%s = %r, (4 pi/3) sum r^3 n / packing factor * 1e-24 = %r" % (text2, v, want), text2)
